@@ -105,7 +105,7 @@ class Session:
         self.lastop = None
         self.epoch = 0
         self.fullcache = {}
-        self.held = self.last_canv = self.last_tp = None
+        self.held = self.last_canv = self.last_tp = self.stale_canv = None
         self.build(case["content"], wrap)
 
     # ------------------------------------------------------------ construction
@@ -409,8 +409,9 @@ class Session:
                 self.viol(self.exc_sig("render", e), f"{type(e).__name__}: {e}\n{traceback.format_exc(limit=5)}")
             # a real program would have died here; the history goes on from a clean slate (no frame kept from
             # before the failed render, nothing cached for the top widget)
-            self.held = None
+            self.held = self.last_canv = None
             self.top._invalidate()
+            self.base._invalidate()
             return None
         spy_renders = {}
         for e in self.log[mark:]:
@@ -542,8 +543,9 @@ class Session:
                 self.viol(f"C20|{self.topname}|thumb-top|{how}{mode}", f"bar={barseq!r} p={p} P={P} total={total} h={h}")
             # the very same canvas object as the previous frame although total rows / offset changed: the ScrollBar
             # canvas was served from CanvasCache across a change that happened off screen (classification only)
-            stale = canv is self.last_canv and (total, p) != self.last_tp
-            if stale:
+            stale = canv is self.stale_canv
+            if canv is self.last_canv and (total, p) != self.last_tp:
+                stale, self.stale_canv = True, canv  # stays stale for as long as this very canvas keeps being served
                 self.c("bar_frame_from_cache_although_total_or_offset_changed")
             if len(P) == 1:
                 fp = (hash(tuple(m["full"])), w, h, bw, focus)
